@@ -80,7 +80,17 @@ fn gen(g: &mut G) -> Plan {
         };
         // (no draw) an IPv4-mapped IPv6 address is an IPv6 address like any other to a client that was handed
         // it by the resolver (no plain twin of it is in the list)
-        let text = if i == 0 && (ct_ms as usize + n4 + n6) % 4 == 0 { "::ffff:192.0.2.77".to_string() } else { format!("2001:db8::{}", p6[i as usize]) };
+        // ... and so is the unspecified address (on most systems it reaches the machine itself)
+        let text = if i == 0 && (ct_ms as usize + n4 + n6) % 4 == 0 {
+            "::ffff:192.0.2.77".to_string()
+        } else if i == 0 && (ct_ms as usize + n4 + n6) % 4 == 3 {
+            "::".to_string()
+        } else {
+            format!("2001:db8::{}", p6[i as usize])
+        };
+        if text == "::" {
+            g.probe("unspecified-address-in-the-resolver-answer");
+        }
         if text.starts_with("::ffff") {
             g.probe("ipv4-mapped-ipv6-address");
         }
@@ -92,7 +102,13 @@ fn gen(g: &mut G) -> Plan {
             1 => ConnectBehaviour::Refuse { latency_ns: lat(g) },
             _ => ConnectBehaviour::Blackhole,
         };
-        v4.push(Addr { ip: format!("192.0.2.{}", p4[i as usize]).parse().unwrap(), beh });
+        let text = if i == 0 && (ct_ms as usize + n4 + 2 * n6) % 4 == 1 {
+            g.probe("unspecified-address-in-the-resolver-answer");
+            "0.0.0.0".to_string()
+        } else {
+            format!("192.0.2.{}", p4[i as usize])
+        };
+        v4.push(Addr { ip: text.parse().unwrap(), beh });
     }
     // resolver order: a drawn interleaving that keeps the per-family order
     let mut addrs = Vec::new();
@@ -571,6 +587,16 @@ pub fn scenario(g: &mut G, ctx: &RunCtx) -> RunReport {
             _ => None,
         };
         sim.add_listener(a.ip, if p.https { 443 } else { 80 }, a.beh, factory);
+    }
+    // (no draw) refusals come in more kinds than "connection refused": no route to the network or to the host,
+    // a reset, an address that is not available.  Whatever the kind, it is that one attempt that failed
+    for (i, a) in p.addrs.iter().enumerate() {
+        if matches!(a.beh, ConnectBehaviour::Refuse { .. }) && (p.ct_ms as usize / 50 + i + p.addrs.len()) % 2 == 0 {
+            use std::io::ErrorKind as K;
+            let kind = [K::NetworkUnreachable, K::HostUnreachable, K::ConnectionReset, K::AddrNotAvailable, K::PermissionDenied][(i + p.addrs.len() + p.dns_ms as usize) % 5];
+            sim.set_refuse_kind(a.ip, if p.https { 443 } else { 80 }, kind);
+            g.probe("refusal-of-another-kind-than-connection-refused");
+        }
     }
     let out = sim.run(|| caller(&p));
     let mut stats = Stats::default();
